@@ -135,3 +135,95 @@ Fixpoint unquote_fuel (n : nat) (s : str) : option str :=
   end.
 
 Definition json_unquote (s : str) : option str := unquote_fuel (length s) s.
+
+(* ---------- the auths entry Put writes: json.Marshal(AuthConfig{Auth, IdentityToken,
+   RegistryToken}) with omitempty -- the bytes kept in Config.authsCache and read
+   back by GetCredential (json.Unmarshal), and, re-indented, the bytes in the file ---------- *)
+Definition k_auth : str := b "auth".
+Definition k_idtok : str := b "identitytoken".
+Definition k_regtok : str := b "registrytoken".
+
+Definition member (k v : str) : list str :=
+  match v with
+  | [] => []                                                   (* omitempty *)
+  | _ => [[dq] ++ k ++ [dq; 58; dq] ++ json_quote v ++ [dq]]
+  end.
+
+Fixpoint join_comma (l : list str) : str :=
+  match l with
+  | [] => []
+  | [x] => x
+  | x :: r => x ++ [44] ++ join_comma r
+  end.
+
+Definition render_fresh (auth idtok regtok : str) : str :=
+  [123] ++ join_comma (member k_auth auth ++ member k_idtok idtok ++ member k_regtok regtok) ++ [125].
+
+(* the text of a JSON string up to its closing quote (s starts after the opening quote);
+   a backslash protects the next byte *)
+Fixpoint scan_string (s : str) : option (str * str) :=
+  match s with
+  | [] => None
+  | c :: r =>
+      if c =? dq then Some ([], r)
+      else if c =? bs then
+        match r with
+        | [] => None
+        | e :: r' => match scan_string r' with
+                     | Some (t, rest) => Some (c :: e :: t, rest)
+                     | None => None
+                     end
+        end
+      else match scan_string r with
+           | Some (t, rest) => Some (c :: t, rest)
+           | None => None
+           end
+  end.
+
+(* members  "k":"v"  separated by commas up to the closing brace; values decoded *)
+Fixpoint parse_members (n : nat) (s : str) : option (list (str * str)) :=
+  match n with
+  | O => None
+  | S n' =>
+      match s with
+      | 34 :: r =>
+          match scan_string r with
+          | Some (k, 58 :: 34 :: r2) =>
+              match scan_string r2 with
+              | Some (vq, r3) =>
+                  match json_unquote k, json_unquote vq with
+                  | Some k', Some v' =>
+                      match r3 with
+                      | [125] => Some [(k', v')]
+                      | 44 :: r4 => match parse_members n' r4 with
+                                    | Some l => Some ((k', v') :: l)
+                                    | None => None
+                                    end
+                      | _ => None
+                      end
+                  | _, _ => None
+                  end
+              | None => None
+              end
+          | _ => None
+          end
+      | _ => None
+      end
+  end.
+
+Fixpoint field_of (k : str) (l : list (str * str)) : str :=
+  match l with
+  | [] => []
+  | (k', v) :: r => if str_eqb k k' then v else field_of k r
+  end.
+
+(* what json.Unmarshal into AuthConfig finds in an entry of this shape *)
+Definition parse_fresh (s : str) : option (str * str * str) :=
+  match s with
+  | [123; 125] => Some ([], [], [])
+  | 123 :: r => match parse_members (length r) r with
+                | Some l => Some (field_of k_auth l, field_of k_idtok l, field_of k_regtok l)
+                | None => None
+                end
+  | _ => None
+  end.
